@@ -3,11 +3,12 @@ from lib.driver import Ob
 LEVEL = 'model_checking'
 EXPLANATION = ('One inductive step per overlap-resolution mechanism, on symbolic intervals (symx + z3): the real sweep / add_to / merge_all_tokens / '
                'b_add code runs on arbitrary contract-respecting match or result intervals and the output must be pairwise disjoint. Known '
-               'defects are excluded as regions of the symbolic input space and searched separately.')
+               'defects are excluded as regions of the symbolic input space and searched separately. At API level composed date-time / unit queries (en-us, zh-cn; thorough es, fr, pt, de) go through the '
+               'real recognisers; an overlap is excused only when a call-site monitor attributes that very pair to a recorded finding (F3a, F36) or the query to F37.')
 ASSUMPTIONS = ['regex finditer contract: per pattern the matches are non-empty, ordered, non-overlapping and inside the source',
                'the negative-term pattern is $-anchored (checked on the real patterns of every culture: O12.0) and lies outside number matches',
                'bounded source length and number of matches/results (see bounds per obligation)']
-OUTSIDE = ['interplay of the real sub-extractors on one sentence (which intervals actually arise)', 'CJK-specific extractors',
+OUTSIDE = ['interplay of the real sub-extractors on a sentence outside the composed pools',
            'merged number/unit grouping (BaseMergedNumberExtractor / BaseMergedUnitExtractor) is not built']
 S = 'harness.spans:'
 
@@ -67,6 +68,8 @@ def obligations(tier):
     ]
     cs = [{'kind': k, 'pad': a} for k in ('datetime', 'currency') for a in range(10)] + [{'kind': 'dimension'}, {'kind': 'percentage'}]
     cs += [{'kind': k, 'culture': 'zh-cn'} for k in ('currency', 'dimension', 'datetime')]
+    if tier == 'thorough':
+        cs += [{'kind': k, 'culture': c} for c in ('es-es', 'fr-fr', 'pt-br', 'de-de') for k in ('currency', 'datetime')]
     obs.append(Ob('O12.6-composed', 'sx', 'harness.compose:h_compose', slices=cs, timeout=max(t, 300),
                   descr='API level, all real regexes: date/time, currency, dimension and percentage queries assembled from pools (phrases sharing an hour digit, '
                         'adjacent dates, ranges, modifiers, units sharing a sign): the returned entities are pairwise disjoint; an overlap is excused only when the '
